@@ -141,6 +141,17 @@ class Walk:
                 rt = self.rec["rtypes"][path]
                 f = type(got).model_fields.get("typename__")
                 lits = typing.get_args(f.annotation) if f is not None else ()
+                if not lits:
+                    # __typename selected under an alias only: the literal sits on the field standing for that key
+                    for fi in type(got).model_fields.values():
+                        if fi.alias is not None and v.get(fi.alias) == rt and typing.get_origin(fi.annotation) is typing.Literal:
+                            lits = typing.get_args(fi.annotation)
+                            break
+                    else:
+                        for n, fi in type(got).model_fields.items():
+                            if fi.alias is None and v.get(n) == rt and typing.get_origin(fi.annotation) is typing.Literal:
+                                lits = typing.get_args(fi.annotation)
+                                break
                 if rt not in lits:
                     self.fail("typename", f"runtime type {rt} at {list(path)} validated as {type(got).__name__} "
                                           f"whose __typename literal is {list(lits)}")
